@@ -128,6 +128,7 @@ def build():
     u.ghost_call("open", quals=("File",))
     u.ghost_call("create", quals=("File",))
     u.ghost_call("write_all", method=True)
+    u.ghost_call("write", method=True)
     u.ghost_call("read_to_end", method=True)
     u.ghost_call("chown", quals=("unistd",))
     u.ghost_call("call", quals=("hooks",))
@@ -161,9 +162,13 @@ def build():
         u.verify(S, name, "storage", props=props, fns={name: c[name]} if name in c else {name: FnSpec(ret="r")})
     # --- acme_proto/certificate.rs: where the key pair of an issuance comes from
     u.module("certificate", "use crate::*;\nuse crate::storage::FileManager;\nuse crate::acme_common::crypto::KeyType;")
-    u.raw("certificate", "pub struct Certificate { pub key_type: KeyType, pub kp_reuse: bool, pub file_manager: FileManager }\n", trusted=True)
+    u.raw("certificate", "pub struct Certificate { pub key_type: KeyType, pub kp_reuse: bool, pub file_manager: FileManager }\n"
+          "// impl HasLogger for Certificate (certificate.rs): log lines, no other effect\n"
+          "impl crate::logs::HasLogger for Certificate {\n"
+          "    #[verifier::external_body] fn warn(&self, msg: &str) { unimplemented!() }\n    #[verifier::external_body] fn info(&self, msg: &str) { unimplemented!() }\n"
+          "    #[verifier::external_body] fn debug(&self, msg: &str) { unimplemented!() }\n    #[verifier::external_body] fn trace(&self, msg: &str) { unimplemented!() }\n}\n", trusted=True)
     u.module("acme_proto", "")
-    u.module("acme_proto::certificate", "use crate::*;\nuse crate::certificate::Certificate;\nuse crate::storage;\nuse crate::storage::{FileType, file_path_spec};\n"
+    u.module("acme_proto::certificate", "use crate::*;\nuse crate::logs::HasLogger;\nuse crate::certificate::Certificate;\nuse crate::storage;\nuse crate::storage::{FileType, file_path_spec};\n"
              "use crate::acme_common::crypto::{gen_keypair, KeyPair, key_pem, pem_key};\nuse crate::acme_common::error::Error;")
     u.ghost_call("set_keypair", quals=("storage",))
     u.ghost_call("get_keypair", quals=("storage",))
@@ -173,10 +178,10 @@ def build():
         // the key pair handed to the CSR is the key in the key file: read from it, or generated and written to it
         r matches Ok(k) ==> final(w).fs.files.contains_key(file_path_spec(cert.file_manager, FileType::PrivateKey))
             && (final(w).fs.files[file_path_spec(cert.file_manager, FileType::PrivateKey)] == key_pem(k)
-                || pem_key(final(w).fs.files[file_path_spec(cert.file_manager, FileType::PrivateKey)]) == Some(k)), //@C01.key_pair_is_the_key_in_the_key_file,C03.key_of_the_coming_certificate_is_the_key_in_the_key_file
+                || pem_key(final(w).fs.files[file_path_spec(cert.file_manager, FileType::PrivateKey)]) == Some(k)), //@C01.key_pair_is_the_key_in_the_key_file,C03.key_of_the_coming_certificate_is_the_key_in_the_key_file,C02.key_of_the_csr_is_the_key_in_the_key_file
 """
     for name in ["gen_key_pair", "read_key_pair", "get_key_pair"]:
-        u.verify(PCF, name, "acme_proto::certificate", props=["C01", "C03"], fns={name: FnSpec(ret="r", ghost=True, sig=key_ok)})
+        u.verify(PCF, name, "acme_proto::certificate", props=["C01", "C03", "C02"], fns={name: FnSpec(ret="r", ghost=True, sig=key_ok)})
     return u
 
 
